@@ -18,6 +18,7 @@ EXCLUSIONS = {
     'dir source-text archive with keys needing an input file': 'known finding C03/C04: source-text dir archive cannot read back such keys; only md5-style keys used',
     'python-hash keymaps with arguments whose hashes collide (-1/-2)': 'python hash is lossy; property speaks of information-preserving keymaps',
     'non-ASCII text in keys of source-text file archives': 'finding D9c (C03/C04): written as latin-1, read as UTF-8 source',
+    'equal-but-differently-typed argument values (1, 1.0, True) in pools destined for dir archives': 'a dict merges them, a dir archive files them separately (C03 probe)',
     'nan arguments': 'nan != nan: "the same call" is undefined',
     'tuple/list results with json/sqlite/source codecs': 'outside the codec round-trip domain',
 }
@@ -78,7 +79,7 @@ def keymap_specs_for(key_req, module, has_varargs, info_preserving_only=True, al
 
 
 @st.composite
-def arg_values(draw, module, kkind, key_req, rich=False):
+def arg_values(draw, module, kkind, key_req, rich=False, no_ints=False):
     """one argument value spec, drawn from a domain the configuration accepts"""
     hurt = key_req not in ('fname', 'strsafe')
     if kkind == 'pyhash':
@@ -95,7 +96,10 @@ def arg_values(draw, module, kkind, key_req, rich=False):
     if key_req in ('fname', 'strsafe'):
         safe_alpha = ['a', 'b', '1', '_', '.', "'", '"', ' ', ',', '(', 'é', ':', '|', '?', '*', '<', '>', '\\', '=', '+']
         s = st.lists(st.sampled_from(safe_alpha), max_size=4).map(lambda cs: ['s', ''.join(cs)])
-        base = st.one_of(V.ints(), s, V.NONE, V.BOOLS, V.floats())
+        # no equal-but-differently-typed values (1 / 1.0 / True): a dict treats them as one key, a dir archive
+        # files them under different names (C03 probes that); keep the pools free of such pairs here
+        fl = st.sampled_from([0.5, 2.5, 0.125, 2.675, -1.5, 3.14159, 0.1]).map(lambda x: ['f', repr(x)])
+        base = st.one_of(V.ints(), s, V.NONE, fl) if not no_ints else st.one_of(s, V.NONE, fl, fl)
         return draw(st.one_of(base, st.lists(base, max_size=2).map(lambda x: ['t', x])))
     if rich and kkind in ('str', 'bytes') and draw(st.integers(0, 3)) == 0:
         return draw(V.anyvalues(max_leaves=4, special_floats=False))
@@ -156,6 +160,8 @@ def op_table(npool):
         'dumpk': st.lists(idx, min_size=1, max_size=3).map(lambda x: ['dumpk', x]),
         'loadk': st.lists(idx, min_size=1, max_size=3).map(lambda x: ['loadk', x]),
         'awrite': st.lists(idx, min_size=1, max_size=6).map(lambda x: ['awrite', x]),
+        'cache_get': st.just(['cache_get']),
+        'wrapped': st.just(['wrapped']),
         'redecorate': st.just(['redecorate']),
         'reopen': st.just(['reopen']),
         'dumpreopen': st.just(['dumpreopen']),
@@ -190,7 +196,8 @@ DEFAULT_WEIGHTS = {'call': 12, 'hammer': 0, 'dump': 1, 'load': 1, 'dumpk': 1, 'l
 def cache_cases(draw, modules=('std', 'safe'), algos=tuple(H.ALGOS), maxsizes=(1, 2, 3, 5),
                 backends=tuple(H.BACKENDS_ALL), weights=None, max_ops=30, min_ops=1, pool=(3, 7),
                 purges=(False, True), shapes=None, allow_default_keymap=True, ms_pos=(False,),
-                rich_args=False, info_preserving_only=True, mem_weight=0, extra=None, unhashable_ok=False, prefill_pct=0, raising_pct=0):
+                rich_args=False, info_preserving_only=True, mem_weight=0, extra=None, unhashable_ok=False, prefill_pct=0, raising_pct=0,
+                tols=(None,), deeps=(False,), ignores=(None,), float_pct=0):
     w = dict(DEFAULT_WEIGHTS)
     w.update(weights or {})
     module = draw(st.sampled_from(modules))
@@ -220,7 +227,11 @@ def cache_cases(draw, modules=('std', 'safe'), algos=tuple(H.ALGOS), maxsizes=(1
         kkind = H.keymap_key_kind(keymap)
     vmode = H.backend_value_mode(backend)
     rmode = draw(st.sampled_from(['str', 'any' if vmode == 'any' else 'scalar']))
-    valstrat = arg_values(module, kkind, key_req, rich=rich_args)
+    tol = draw(st.sampled_from(tols))
+    valstrat = arg_values(module, kkind, key_req, rich=rich_args, no_ints=tol is not None)
+    if float_pct and tol is not None:
+        near = st.sampled_from([2.5, 2.54, 2.46, 2.449, 0.5, 1.5, -0.5, 14.9, 15.1, 0.05, 0.049, 1.0, 3.14159, 11.0, 19.99]).map(lambda x: ['f', repr(x)])
+        valstrat = st.one_of(*([near] * float_pct + [valstrat] * (10 - float_pct)))
     npool = draw(st.integers(pool[0], pool[1]))
     pool_b = []
     for _ in range(npool):
@@ -245,6 +256,12 @@ def cache_cases(draw, modules=('std', 'safe'), algos=tuple(H.ALGOS), maxsizes=(1
         'keymap': keymap, 'backend': backend, 'sig': sig, 'rmode': rmode,
         'pool': pool_b, 'ops': ops,
     }
+    if tol is not None:
+        case['tol'] = tol
+        case['deep'] = draw(st.sampled_from(deeps))
+    ig = draw(st.sampled_from(ignores))
+    if ig is not None:
+        case['ignore'] = ig
     if raising_pct:
         rz = []
         for i in range(npool):
